@@ -1,6 +1,7 @@
 import Lean.Data.Json
 import MypyVerif.Model.ExitStatus
 import MypyVerif.Gen.ErrorCodes
+import MypyVerif.Gen.ExitRule
 /-!
 Line-protocol driver for the C13 models (model files + the generated code table; no proofs needed).
 One JSON value per input line, one JSON value per output line.
@@ -22,7 +23,7 @@ One JSON value per input line, one JSON value per output line.
               ["M", file]  → ["M", [tuple…]]   file_messages; tuple = [line, col, endLine, endCol, sev, msg, code|null]
               ["S"]        → ["S", [[file, line, code]…], [blocker files], seenImportError, nInfos]
   ["pos", line, col|null, endLine|null, endCol|null]   → [line, col, endLine, endCol]   (Errors.report clamp)
-  ["exit", [[srcloc, sev, message, suffix]…], blockers] → [exitCode, truth, nErrors, nNotes]
+  ["exit", [[srcloc, sev, message, suffix]…], blockers] → [exitCode, truth, nErrors, nNotes]   (rule = Gen.exitRule)
 -/
 open Lean Errors
 
@@ -121,8 +122,8 @@ def runExit (a : List Json) : Json :=
       codeSuffix := (jStr (nth f 3)).toList }
   let b := jBool (nth a 2)
   let msgs := ls.map ExitStatus.format
-  let cs := ExitStatus.countStats msgs
-  natsJ [ExitStatus.exitCode msgs b, ExitStatus.truth ls b, cs.1, cs.2]
+  let cs := ExitStatus.countStats ExitStatus.Gen.exitRule msgs
+  natsJ [ExitStatus.exitCode ExitStatus.Gen.exitRule msgs b, ExitStatus.truth ls b, cs.1, cs.2]
 
 def stepLine (line : String) : String :=
   match Json.parse line with
